@@ -1160,4 +1160,197 @@ theorem twlc_jac_below_kT (f Lp Lc St C g0 g1 Fc kT : ℝ) (hf : 0 < f) (hLp : 0
 
 end extjac
 
+/-! ### index bookkeeping: the constructors establish the hypotheses of the routing theorems -/
+
+theorem indexOf_eq_some {names : List String} {n : String} {i : Nat} (h : indexOf names n = some i) :
+    i < names.length ∧ names[i]? = some n := by
+  unfold indexOf at h
+  simp only at h
+  split at h
+  · rename_i hlt
+    cases h
+    refine ⟨hlt, ?_⟩
+    have := List.findIdx_getElem (w := hlt)
+    rw [List.getElem?_eq_getElem hlt]
+    simp only [beq_iff_eq] at this
+    rw [this]
+  · cases h
+
+theorem indexOf_of_mem {names : List String} {n : String} (h : n ∈ names) : ∃ i, indexOf names n = some i := by
+  unfold indexOf
+  simp only
+  have : names.findIdx (· == n) < names.length := List.findIdx_lt_length_of_exists ⟨n, h, by simp⟩
+  rw [if_pos this]
+  exact ⟨_, rfl⟩
+
+theorem indexOf_inj {names : List String} {a b : String} {i : Nat} (ha : indexOf names a = some i)
+    (hb : indexOf names b = some i) : a = b := by
+  have h1 := (indexOf_eq_some ha).2
+  have h2 := (indexOf_eq_some hb).2
+  rw [h1] at h2
+  exact Option.some.inj h2
+
+theorem subIdx_cons (all : List String) (n : String) (sub : List String) :
+    subIdx all (n :: sub) = (do let i ← indexOf all n; let is ← subIdx all sub; pure (i :: is)) := by
+  unfold subIdx
+  rw [List.mapM_cons]
+
+/-- `[params_all.index(par) for par in params_sub]` for distinct names that all occur: defined, in range,
+    and the indices are distinct -/
+theorem subIdx_spec (all sub : List String) (hsub : ∀ n ∈ sub, n ∈ all) (hnd : sub.Nodup) :
+    ∃ idx, subIdx all sub = some idx ∧ idx.length = sub.length ∧ idx.Nodup ∧ (∀ i ∈ idx, i < all.length) ∧
+      (∀ i ∈ idx, ∃ n ∈ sub, indexOf all n = some i) := by
+  induction sub with
+  | nil => exact ⟨[], rfl, rfl, List.nodup_nil, by simp, by simp⟩
+  | cons n sub ih =>
+    obtain ⟨hn, hnd'⟩ := List.nodup_cons.mp hnd
+    obtain ⟨idx, h1, h2, h3, h4, h5⟩ := ih (fun m hm => hsub m (List.mem_cons_of_mem _ hm)) hnd'
+    obtain ⟨i, hi⟩ := indexOf_of_mem (hsub n List.mem_cons_self)
+    refine ⟨i :: idx, ?_, by simp [h2], ?_, ?_, ?_⟩
+    · rw [subIdx_cons, hi, h1]; rfl
+    · refine List.nodup_cons.mpr ⟨?_, h3⟩
+      intro hmem
+      obtain ⟨m, hm, hmi⟩ := h5 i hmem
+      have := indexOf_inj hi hmi
+      exact hn (this ▸ hm)
+    · intro j hj
+      rcases List.mem_cons.mp hj with rfl | hj
+      · exact (indexOf_eq_some hi).1
+      · exact h4 j hj
+    · intro j hj
+      rcases List.mem_cons.mp hj with rfl | hj
+      · exact ⟨n, List.mem_cons_self, hi⟩
+      · obtain ⟨m, hm, hmi⟩ := h5 j hj
+        exact ⟨m, List.mem_cons_of_mem _ hm, hmi⟩
+
+/-- a model tree whose built-in leaves have distinct parameter names (always the case: `Lp, Lc, St, kT`, … prefixed by the model name) -/
+def M.WF : M → Prop
+  | .base _ names => names.Nodup
+  | .add l r => l.WF ∧ r.WF
+  | .off _ m => m.WF
+  | .inv m => m.WF
+
+/-- the keys of the merged parameter dictionary are distinct -/
+theorem M.params_nodup : (m : M) → m.WF → m.params.Nodup
+  | .base _ names, h => h
+  | .add l r, h => by
+    have hl := M.params_nodup l h.1
+    have hr := M.params_nodup r h.2
+    simp only [M.params]
+    refine List.nodup_append.mpr ⟨hl, hr.filter _, ?_⟩
+    intro a ha b hb hab
+    have hb' := (List.mem_filter.mp hb).2
+    subst hab
+    simp only [Bool.not_eq_true', List.contains_eq_mem, decide_eq_false_iff_not] at hb'
+    exact hb' ha
+  | .off name m, h => by
+    have hm := M.params_nodup m h
+    simp only [M.params]
+    refine List.nodup_cons.mpr ⟨?_, hm.filter _⟩
+    intro hmem
+    have := (List.mem_filter.mp hmem).2
+    simp at this
+  | .inv m, h => M.params_nodup m h
+
+/-- `CompositeModel.__init__` ESTABLISHES the hypotheses of `composite_jacobian`: `lhs_params` / `rhs_params` are defined,
+    as long as the sub-models' parameter lists, in range, and each is a list of DISTINCT indices -/
+theorem composite_indices_established (l r : M) (hl : l.WF) (hr : r.WF) :
+    ∃ li ri, subIdx (M.add l r).params l.params = some li ∧ subIdx (M.add l r).params r.params = some ri ∧
+      li.length = l.params.length ∧ ri.length = r.params.length ∧ li.Nodup ∧ ri.Nodup ∧
+      (∀ i ∈ li, i < (M.add l r).params.length) ∧ (∀ i ∈ ri, i < (M.add l r).params.length) := by
+  have hsubl : ∀ n ∈ l.params, n ∈ (M.add l r).params := by
+    intro n hn; simp only [M.params]; exact List.mem_append_left _ hn
+  have hsubr : ∀ n ∈ r.params, n ∈ (M.add l r).params := by
+    intro n hn; simp only [M.params]
+    by_cases h : n ∈ l.params
+    · exact List.mem_append_left _ h
+    · refine List.mem_append_right _ (List.mem_filter.mpr ⟨hn, ?_⟩)
+      simp [h]
+  obtain ⟨li, a1, a2, a3, a4, _⟩ := subIdx_spec _ _ hsubl (M.params_nodup l hl)
+  obtain ⟨ri, b1, b2, b3, b4, _⟩ := subIdx_spec _ _ hsubr (M.params_nodup r hr)
+  exact ⟨li, ri, a1, b1, a2, b2, a3, b3, a4, b4⟩
+
+/-- `SubtractIndependentOffset.__init__` establishes the hypotheses of `offset_jacobian` -/
+theorem offset_indices_established (name : String) (m : M) (hm : m.WF) :
+    ∃ mi oi, subIdx (M.off name m).params m.params = some mi ∧ indexOf (M.off name m).params name = some oi ∧
+      mi.length = m.params.length ∧ mi.Nodup ∧ oi < (M.off name m).params.length ∧
+      (∀ i ∈ mi, i < (M.off name m).params.length) := by
+  have hsub : ∀ n ∈ m.params, n ∈ (M.off name m).params := by
+    intro n hn; simp only [M.params]
+    by_cases h : n = name
+    · subst h; exact List.mem_cons_self
+    · refine List.mem_cons_of_mem _ (List.mem_filter.mpr ⟨hn, ?_⟩)
+      simp [h]
+  obtain ⟨mi, a1, a2, a3, a4, _⟩ := subIdx_spec _ _ hsub (M.params_nodup m hm)
+  obtain ⟨oi, ho⟩ := indexOf_of_mem (names := (M.off name m).params) (n := name) (by simp only [M.params]; exact List.mem_cons_self)
+  exact ⟨mi, oi, a1, ho, a2, a3, (indexOf_eq_some ho).1, a4⟩
+
+
+theorem filterMap_indexOf_eq (names l : List String) (idx : List Nat) (h : subIdx names l = some idx) :
+    l.filterMap (indexOf names) = idx := by
+  induction l generalizing idx with
+  | nil => unfold subIdx at h; simp at h; rw [h]; rfl
+  | cons n l ih =>
+    rw [subIdx_cons] at h
+    cases hi : indexOf names n with
+    | none => rw [hi] at h; cases h
+    | some i =>
+      cases hs : subIdx names l with
+      | none => rw [hi, hs] at h; cases h
+      | some is =>
+        rw [hi, hs] at h
+        have : idx = i :: is := by cases h; rfl
+        rw [this, List.filterMap_cons, hi, ih is hs]
+
+theorem pidx_eq (trans : List (Tr ℝ)) (names : List String) :
+    (pGlobalIndices trans names).filterMap id = (trans.filterMap Tr.name?).filterMap (indexOf names) := by
+  unfold pGlobalIndices
+  induction trans with
+  | nil => rfl
+  | cons t ts ih =>
+    rw [List.map_cons, List.filterMap_cons, ih]
+    cases hv : t.val with
+    | inl n =>
+      have : t.name? = some n := by unfold Tr.name?; rw [hv]
+      simp only [id, List.filterMap_cons, this]
+    | inr v =>
+      have : t.name? = none := by unfold Tr.name?; rw [hv]
+      simp only [id, List.filterMap_cons, this]
+
+/-- `Fit._build_fit` collects every parameter name of every data set: the names a data set maps to are among the
+    global names -/
+theorem parameterNames_sub_globalNames (models : List (M × List (DataSet ℝ))) (md : M × List (DataSet ℝ))
+    (hmd : md ∈ models) (d : DataSet ℝ) (hd : d ∈ md.2) : ∀ n ∈ d.parameterNames, n ∈ globalNames models := by
+  intro n hn
+  unfold globalNames
+  rw [List.mem_eraseDups]
+  exact List.mem_flatMap.mpr ⟨md, hmd, List.mem_flatMap.mpr ⟨d, hd, hn⟩⟩
+
+/-- `Condition.p_indices` ESTABLISHES the hypotheses of `fit_jacobian_assembly`: one in-range column index per
+    parameter mapped to a name (as many as `localize_sensitivities` keeps), and the indices are DISTINCT exactly when
+    the data set maps its parameters to distinct global names — the case in which the code's buffered `-=` is right
+    (finding F16 otherwise) -/
+theorem fit_indices_established (trans : List (Tr ℝ)) (names : List String)
+    (hsub : ∀ n ∈ trans.filterMap Tr.name?, n ∈ names) :
+    (∀ i ∈ (pGlobalIndices trans names).filterMap id, i < names.length) ∧
+    ((pGlobalIndices trans names).filterMap id).length = (trans.filterMap Tr.name?).length ∧
+    ((trans.filterMap Tr.name?).Nodup → ((pGlobalIndices trans names).filterMap id).Nodup) := by
+  rw [pidx_eq]
+  refine ⟨?_, ?_, ?_⟩
+  · intro i hi
+    obtain ⟨n, _, hni⟩ := List.mem_filterMap.mp hi
+    exact (indexOf_eq_some hni).1
+  · generalize trans.filterMap Tr.name? = l at hsub
+    induction l with
+    | nil => rfl
+    | cons n l ih =>
+      obtain ⟨i, hi⟩ := indexOf_of_mem (hsub n List.mem_cons_self)
+      rw [List.filterMap_cons, hi, List.length_cons, List.length_cons,
+        ih (fun m hm => hsub m (List.mem_cons_of_mem _ hm))]
+  · intro hnd
+    obtain ⟨idx, h1, _, h3, _⟩ := subIdx_spec names _ hsub hnd
+    rw [filterMap_indexOf_eq _ _ _ h1]
+    exact h3
+
+
 end Verif.C13
